@@ -485,6 +485,23 @@ func (e *Engine) loadScalar(h *Heap, l *Loc, sort, suffix string) string {
 	return t
 }
 
+// markRef records that a component holds references (pointers, slice bases, interfaces, maps, funcs).
+func (e *Engine) markRef(l *Loc, suffix string) {
+	name, _ := e.compName(l)
+	if e.refComp == nil {
+		e.refComp = map[string]bool{}
+	}
+	e.refComp[name+suffix] = true
+}
+
+func isRefType(t types.Type) bool {
+	switch under(t).(type) {
+	case *types.Pointer, *types.Interface, *types.Map, *types.Signature, *types.Chan:
+		return true
+	}
+	return false
+}
+
 // loadScalarF also reports whether the value was found by syntactic store-to-load forwarding
 // (the location was written earlier in this execution with exactly this index term).
 func (e *Engine) loadScalarF(h *Heap, l *Loc, sort, suffix string) (string, bool) {
@@ -545,7 +562,7 @@ func (e *Engine) water() string {
 // bumpWater introduces a new watermark after code that may have allocated (a call, earlier loop iterations).
 func (e *Engine) bumpWater(prefix string) string {
 	m := e.fresh(prefix+".mark", "Int")
-	e.assume(fmt.Sprintf("(>= %s %s)", m, e.water()))
+	e.assume(fmt.Sprintf("(and (>= %s %s) (>= %s pre))", m, e.water(), m))
 	e.lastAlloc = m
 	return m
 }
@@ -567,6 +584,11 @@ func (e *Engine) preFact(l *Loc, v string) string {
 
 // load reads the value at location l. named=false yields raw select terms (used in specifications).
 func (e *Engine) load(h *Heap, l *Loc) Val {
+	if _, isSl := under(l.T).(*types.Slice); isSl {
+		e.markRef(l, ".b")
+	} else if isRefType(l.T) {
+		e.markRef(l, "")
+	}
 	switch u := under(l.T).(type) {
 	case *types.Slice:
 		s := SliceV{
@@ -625,6 +647,11 @@ func (e *Engine) load(h *Heap, l *Loc) Val {
 
 // loadRaw reads without introducing names or invariants (for specification terms).
 func (e *Engine) loadRaw(h *Heap, l *Loc) Val {
+	if _, isSl := under(l.T).(*types.Slice); isSl {
+		e.markRef(l, ".b")
+	} else if isRefType(l.T) {
+		e.markRef(l, "")
+	}
 	switch u := under(l.T).(type) {
 	case *types.Slice:
 		return SliceV{e.loadScalar(h, l, "Int", ".b"), e.loadScalar(h, l, "Int", ".o"), e.loadScalar(h, l, "Int", ".l"), e.loadScalar(h, l, "Int", ".c")}
